@@ -209,6 +209,15 @@ def edges_to_behaviours(outp, tag="EDGE", limit=None):
     return out
 
 
+def records_to_behaviours(outp, tag="BEH"):
+    """complete behaviours printed as [c, h] records (scenario enumeration)"""
+    out = []
+    for js in tlc_lines(outp, tag):
+        r = json.loads(js)
+        out.append(Beh(r.get("c"), list(r["h"]), 0))
+    return out
+
+
 def walks_to_behaviours(outp, tag="WALK"):
     out = []
     for js in tlc_lines(outp, tag):
